@@ -533,6 +533,54 @@ func TestC18Exhaustive(t *testing.T) {
 			st.Class("list of more than 2^32 bits (spot-checked)")
 		})
 	}
+	// every length 0..8300 and around every power of two up to 2^17: both byte views of a fresh zero list and of a list
+	// built by appending a pattern (a fast path or buffer that is right for all lengths but a handful)
+	var lens []int
+	for n := 0; n <= 8300; n++ {
+		lens = append(lens, n)
+	}
+	for p := 14; p <= 17; p++ {
+		for d := -9; d <= 9; d++ {
+			lens = append(lens, 1<<uint(p)+d)
+		}
+	}
+	parallelFor(16, 16, func(w int) {
+		if ct.Failed() {
+			return
+		}
+		ok := withWatchdogFor(120*time.Second, func() {
+			ct.guard(func() {
+				for k := w; k < len(lens) && !ct.Failed(); k += 16 {
+					n := lens[k]
+					fresh := utils.NewBitList(n)
+					grown := new(utils.BitList)
+					model := make([]bool, n)
+					for i := 0; i < n; i++ {
+						model[i] = (i*7+n)%5 < 2
+						grown.AddBit(model[i])
+					}
+					for which, bl := range []*utils.BitList{fresh, grown} {
+						want := packModel(model)
+						if which == 0 {
+							want = make([]byte, (n+7)/8)
+						}
+						var got []byte
+						for b := range bl.IterateBytes() {
+							got = append(got, b)
+						}
+						if bl.Len() != n || string(got) != string(want) || string(bl.GetBytes()) != string(want) {
+							failf(ct, "C18", "bitlist-model", BLCase{New: []int{n, -1}[which], Ops: []BLOp{{Op: "bulk", V: 2, N: n * which}, {Op: "iter"}}}, "list of %d bits (%s): Len()=%d, channel view % x, slice view % x, model % x", n, []string{"NewBitList(n)", "n appended bits"}[which], bl.Len(), trunc(got), trunc(bl.GetBytes()), trunc(want))
+						}
+					}
+					st.Eval()
+				}
+			})
+		})
+		if !ok {
+			failf(ct, "C18", "bitlist-model", BLCase{New: lens[w]}, "the byte views of the lists of length %d, %d, ... did not complete within 120 s (they take microseconds)", lens[w], lens[w]+16)
+		}
+	})
+	st.Class("byte views of every length 0..8300 and around 2^14..2^17")
 	// a slow consumer: the channel view delivers the whole sequence at whatever pace it is read
 	ct.guard(func() {
 		pause := 2500 * time.Millisecond
